@@ -30,7 +30,7 @@ RULE = ('cases = evidence set (8-40 points, 1-4 d, smooth/noisy target, optimum 
 ASSUMPTIONS = ['evidence points are generated well separated with non-negligible noise']
 CONFIG = {
     'quick': {'shards': 16, 'cases': 6, 'timeout': 900, 'floor': 40, 'case_timeout': 400},
-    'thorough': {'shards': 32, 'cases': 40, 'timeout': 3400, 'floor': 500},
+    'thorough': {'shards': 32, 'cases': 80, 'timeout': 5400, 'floor': 1000},
 }
 REQUIRED = ['fast_gradient_called_before_predict', 'bolfi_surrogate_order_permuted', 'bolfi_sampling_phases', 'bolfi_second_phase_after_update', 'bolfi_logpdf_points', 'bolfi_fast_predict_checked',
             'bolfi_fast_gradient_checked', 'contract_logpdf', 'contract_predict', 'gps_fitted', 'logpdf_definition_checked', 'logpdf_outside_checked', 'logpdf_on_bound_checked', 'gradient_checked',
